@@ -204,12 +204,15 @@ func programs() []*Program {
 		ExtraHs: []string{"Harness_Custom_To", "Harness_Custom_From"},
 		File: func() *FileSpec {
 			cu := msg("Cu", nil, fld("Own", TString), fld("C", TString).custom("StrCustom").nonnull().doc(" C is custom\n"),
-				fld("CL", TBool).custom("BoolCustom").rep(), fld("CfgC", TString))
-			return &FileSpec{Name: "p.proto", Msgs: []*M{cu}}
+				fld("CL", TBool).custom("BoolCustom").rep(), fld("CfgC", TString),
+				// message-typed fields declared custom through the configuration: repeated, singular, map
+				mfld("Items", "Item").rep(), mfld("One", "Item"), mapfld("ByKey", mfld("v", "Item")))
+			it := msg("Item", nil, fld("Name", TString))
+			return &FileSpec{Name: "p.proto", Msgs: []*M{it, cu}}
 		},
 		Cfg: func() *Config {
 			c := baseConfig("Cu")
-			c.CustomTypes = map[string]string{"Cu.CfgC": "pkg/sub.CfgCustom"}
+			c.CustomTypes = map[string]string{"Cu.CfgC": "pkg/sub.CfgCustom", "Cu.Items": "ItemList", "Cu.One": "ItemOne", "Cu.ByKey": "ItemMap"}
 			c.Suffixes = map[string]string{"BoolCustom": "BoolSpecial"}
 			c.RequiredFields = []string{"Cu.C"}
 			c.SensitiveFields = []string{"Cu.CfgC"}
@@ -297,6 +300,30 @@ func programs() []*Program {
 		},
 		Cfg: func() *Config { return baseConfig("Top", "Mid", "Leaf") }})
 
+	// documented fields around fields that produce no attribute (excluded) or several (embedded): the
+	// description of a field is the comment of that field, wherever it is declared (C10, C15, C12)
+	add(&Program{Name: "P-docs", Quick: true,
+		File: func() *FileSpec {
+			e1 := msg("DE1", nil, fld("EmbA", TString).doc(" EmbA of the embedded message\n"), fld("EmbB", TInt64).doc(" EmbB of the embedded message\n"))
+			e2 := msg("DE2", nil, fld("ValA", TString).doc(" ValA (embedded by value)\n"), fld("ValB", TBool))
+			dm := msg("Doc", []string{"Pick"},
+				fld("First", TString).doc(" First field\n"),
+				fld("Skip", TString).doc(" Skip is excluded\n"),
+				fld("Second", TInt64).doc(" Second field\n"),
+				mfld("DE1", "DE1").embed().doc(" embedded pointer\n"),
+				fld("Third", TBool).doc(" Third field\n"),
+				mfld("DE2", "DE2").nonnull().embed(),
+				fld("Fourth", TString).rep().doc(" Fourth field\n"),
+				fld("PA", TString).oneof(0).doc(" branch PA\n"), fld("PB", TInt64).oneof(0).doc(" branch PB\n"),
+				fld("Last", TString).doc(" Last field\n")).doc(" Doc is documented\n")
+			return &FileSpec{Name: "p.proto", Msgs: []*M{e1, e2, dm}}
+		},
+		Cfg: func() *Config {
+			c := baseConfig("Doc")
+			c.ExcludeFields = []string{"Doc.Skip"}
+			return c
+		}})
+
 	add(&Program{Name: "P-flags", Quick: true,
 		File: func() *FileSpec {
 			sub := msg("FlSub", nil, fld("X", TString).doc(" X of the sub message\n"), fld("Y", TString)).doc(" FlSub is nested\n")
@@ -365,6 +392,9 @@ func CustomValueForTest() attr.Value { return hookValue{Hook: "drawn"} }
 func customValue_StrCustom() attr.Value       { return hookValue{Hook: "drawn"} }
 func customValue_BoolSpecial() attr.Value     { return hookValue{Hook: "drawn"} }
 func customValue_pkgsubCfgCustom() attr.Value { return hookValue{Hook: "drawn"} }
+func customValue_ItemList() attr.Value        { return hookValue{Hook: "drawn"} }
+func customValue_ItemOne() attr.Value         { return hookValue{Hook: "drawn"} }
+func customValue_ItemMap() attr.Value         { return hookValue{Hook: "drawn"} }
 
 // CustomAttrTypeForTest exposes the hook attribute type to a separate target package.
 func CustomAttrTypeForTest() attr.Type { return hookType{} }
@@ -372,6 +402,51 @@ func CustomAttrTypeForTest() attr.Type { return hookType{} }
 func customAttrType_StrCustom() attr.Type     { return hookType{} }
 func customAttrType_BoolSpecial() attr.Type   { return hookType{} }
 func customAttrType_pkgsubCfgCustom() attr.Type { return hookType{} }
+func customAttrType_ItemList() attr.Type      { return hookType{} }
+func customAttrType_ItemOne() attr.Type       { return hookType{} }
+func customAttrType_ItemMap() attr.Type       { return hookType{} }
+
+func GenSchemaItemList(_ context.Context, a tfsdk.Attribute) tfsdk.Attribute { a.Type = hookType{}; return a }
+func GenSchemaItemOne(_ context.Context, a tfsdk.Attribute) tfsdk.Attribute  { a.Type = hookType{}; return a }
+func GenSchemaItemMap(_ context.Context, a tfsdk.Attribute) tfsdk.Attribute  { a.Type = hookType{}; return a }
+
+func CopyToItemList(diags diag.Diagnostics, obj []*Item, t attr.Type, v attr.Value) attr.Value {
+	countHook("CopyToItemList")
+	_, ok := t.(hookType)
+	return hookValue{Hook: "CopyToItemList", ArgLen: len(obj), TypeSeen: ok, PrevSeen: v != nil}
+}
+func CopyToItemOne(diags diag.Diagnostics, obj *Item, t attr.Type, v attr.Value) attr.Value {
+	countHook("CopyToItemOne")
+	_, ok := t.(hookType)
+	n := 0
+	if obj != nil {
+		n = 1
+	}
+	return hookValue{Hook: "CopyToItemOne", ArgLen: n, TypeSeen: ok, PrevSeen: v != nil}
+}
+func CopyToItemMap(diags diag.Diagnostics, obj map[string]*Item, t attr.Type, v attr.Value) attr.Value {
+	countHook("CopyToItemMap")
+	_, ok := t.(hookType)
+	return hookValue{Hook: "CopyToItemMap", ArgLen: len(obj), TypeSeen: ok, PrevSeen: v != nil}
+}
+func CopyFromItemList(diags diag.Diagnostics, tf attr.Value, obj *[]*Item) {
+	countHook("CopyFromItemList")
+	if h, ok := tf.(hookValue); ok {
+		*obj = make([]*Item, h.ArgLen)
+	}
+}
+func CopyFromItemOne(diags diag.Diagnostics, tf attr.Value, obj **Item) {
+	countHook("CopyFromItemOne")
+	if h, ok := tf.(hookValue); ok {
+		*obj = &Item{Name: h.Arg}
+	}
+}
+func CopyFromItemMap(diags diag.Diagnostics, tf attr.Value, obj *map[string]*Item) {
+	countHook("CopyFromItemMap")
+	if h, ok := tf.(hookValue); ok {
+		*obj = map[string]*Item{h.Arg: nil}
+	}
+}
 
 func GenSchemaStrCustom(_ context.Context, a tfsdk.Attribute) tfsdk.Attribute { a.Type = hookType{}; return a }
 func GenSchemaBoolSpecial(_ context.Context, a tfsdk.Attribute) tfsdk.Attribute { a.Type = hookType{}; return a }
@@ -459,6 +534,19 @@ func Harness_Custom_To() {
 	vrt.Assert("C17/Cu/cfg_c:configured-custom-type-uses-hook", ok3 && c.Hook == "CopyTopkgsubCfgCustom" && c.Arg == obj.CfgC && c.TypeSeen && c.PrevSeen == prev)
 	own, ok4 := tf.Attrs["own"].(types.String)
 	vrt.Assert("C17/Cu/own:ordinary-field-unaffected", ok4 && own.Value == obj.Own)
+	il, ok5 := tf.Attrs["items"].(hookValue)
+	vrt.Assert("C17/Cu/items:repeated-message-custom-uses-hook", ok5 && il.Hook == "CopyToItemList" && il.ArgLen == len(obj.Items) && il.TypeSeen && !il.PrevSeen)
+	vrt.Assert("C17/Cu/items:hook-called-once", hookCalls["CopyToItemList"] == 1)
+	one, ok6 := tf.Attrs["one"].(hookValue)
+	nOne := 0
+	if obj.One != nil {
+		nOne = 1
+	}
+	vrt.Assert("C17/Cu/one:message-custom-uses-hook", ok6 && one.Hook == "CopyToItemOne" && one.ArgLen == nOne && one.TypeSeen && !one.PrevSeen)
+	vrt.Assert("C17/Cu/one:hook-called-once", hookCalls["CopyToItemOne"] == 1)
+	bk, ok7 := tf.Attrs["by_key"].(hookValue)
+	vrt.Assert("C17/Cu/by_key:map-message-custom-uses-hook", ok7 && bk.Hook == "CopyToItemMap" && bk.ArgLen == len(obj.ByKey) && bk.TypeSeen && !bk.PrevSeen)
+	vrt.Assert("C17/Cu/by_key:hook-called-once", hookCalls["CopyToItemMap"] == 1)
 	vrt.Reach("Custom/To/end")
 }
 
@@ -471,7 +559,8 @@ func Harness_Custom_From() {
 	missing := vrt.Bool()
 	prior := vrt.String()
 	tf := types.Object{AttrTypes: attrTypes_Cu(), Attrs: map[string]attr.Value{
-		"own": types.String{Value: "x"}, "c": hookValue{Arg: arg}, "cl": hookValue{ArgLen: n}, "cfg_c": hookValue{Arg: arg}}}
+		"own": types.String{Value: "x"}, "c": hookValue{Arg: arg}, "cl": hookValue{ArgLen: n}, "cfg_c": hookValue{Arg: arg},
+		"items": hookValue{ArgLen: n}, "one": hookValue{Arg: arg}, "by_key": hookValue{Arg: arg}}}
 	if missing {
 		delete(tf.Attrs, "c")
 	}
@@ -495,6 +584,10 @@ func Harness_Custom_From() {
 	}
 	vrt.Assert("C17/Cu/cl:field-is-hook-result", len(obj.CL) == n && hookCalls["CopyFromBoolSpecial"] == 1)
 	vrt.Assert("C17/Cu/cfg_c:field-is-hook-result", obj.CfgC == arg && hookCalls["CopyFrompkgsubCfgCustom"] == 1)
+	vrt.Assert("C17/Cu/items:field-is-hook-result", len(obj.Items) == n && hookCalls["CopyFromItemList"] == 1)
+	vrt.Assert("C17/Cu/one:field-is-hook-result", obj.One != nil && obj.One.Name == arg && hookCalls["CopyFromItemOne"] == 1)
+	_, inMap := obj.ByKey[arg]
+	vrt.Assert("C17/Cu/by_key:field-is-hook-result", len(obj.ByKey) == 1 && inMap && hookCalls["CopyFromItemMap"] == 1)
 	vrt.Reach("Custom/From/end")
 }
 `
@@ -517,6 +610,29 @@ func customAttrType_pkgsubCfgCustom() attr.Type { return sp.CustomAttrTypeForTes
 func customValue_StrCustom() attr.Value       { return sp.CustomValueForTest() }
 func customValue_BoolSpecial() attr.Value     { return sp.CustomValueForTest() }
 func customValue_pkgsubCfgCustom() attr.Value { return sp.CustomValueForTest() }
+
+func customAttrType_ItemList() attr.Type { return sp.CustomAttrTypeForTest() }
+func customAttrType_ItemOne() attr.Type  { return sp.CustomAttrTypeForTest() }
+func customAttrType_ItemMap() attr.Type  { return sp.CustomAttrTypeForTest() }
+func customValue_ItemList() attr.Value   { return sp.CustomValueForTest() }
+func customValue_ItemOne() attr.Value    { return sp.CustomValueForTest() }
+func customValue_ItemMap() attr.Value    { return sp.CustomValueForTest() }
+
+func GenSchemaItemList(c context.Context, a tfsdk.Attribute) tfsdk.Attribute { return sp.GenSchemaItemList(c, a) }
+func GenSchemaItemOne(c context.Context, a tfsdk.Attribute) tfsdk.Attribute  { return sp.GenSchemaItemOne(c, a) }
+func GenSchemaItemMap(c context.Context, a tfsdk.Attribute) tfsdk.Attribute  { return sp.GenSchemaItemMap(c, a) }
+func CopyToItemList(d diag.Diagnostics, o []*sp.Item, t attr.Type, v attr.Value) attr.Value {
+	return sp.CopyToItemList(d, o, t, v)
+}
+func CopyToItemOne(d diag.Diagnostics, o *sp.Item, t attr.Type, v attr.Value) attr.Value {
+	return sp.CopyToItemOne(d, o, t, v)
+}
+func CopyToItemMap(d diag.Diagnostics, o map[string]*sp.Item, t attr.Type, v attr.Value) attr.Value {
+	return sp.CopyToItemMap(d, o, t, v)
+}
+func CopyFromItemList(d diag.Diagnostics, tf attr.Value, o *[]*sp.Item)         { sp.CopyFromItemList(d, tf, o) }
+func CopyFromItemOne(d diag.Diagnostics, tf attr.Value, o **sp.Item)            { sp.CopyFromItemOne(d, tf, o) }
+func CopyFromItemMap(d diag.Diagnostics, tf attr.Value, o *map[string]*sp.Item) { sp.CopyFromItemMap(d, tf, o) }
 
 func GenSchemaStrCustom(c context.Context, a tfsdk.Attribute) tfsdk.Attribute { return sp.GenSchemaStrCustom(c, a) }
 func GenSchemaBoolSpecial(c context.Context, a tfsdk.Attribute) tfsdk.Attribute { return sp.GenSchemaBoolSpecial(c, a) }
